@@ -69,7 +69,16 @@ struct Relay {
 
     void start(int f, int b)
     {
+        // an address picked here can be taken by another process before the relay binds it
+        for (int attempt = 0; attempt < 4; attempt++) {
+            start_once(f, b);
+            if (ok || err != "relay exited at start") return;
+        }
+    }
+    void start_once(int f, int b)
+    {
         stop();
+        err.clear();
         front = f; back = b;
         front_addr = mkaddr(f, "front");
         back_addr = mkaddr(b, "back");
@@ -91,6 +100,9 @@ struct Relay {
             std::string log = tmpdir() + "/relay-" + std::to_string(getpid()) + ".log";
             int fd = open(log.c_str(), O_WRONLY | O_CREAT | O_TRUNC, 0644);
             if (fd >= 0) { dup2(fd, 1); dup2(fd, 2); }
+            // the relay must not inherit the harness's sockets (XCM does not set close-on-exec): a copy
+            // of the server's listening socket would keep the address alive behind the harness's back
+            for (int k = 3; k < 4096; k++) close(k);
             // pauses of a few seconds are part of the plans: they must not trip the 3 s default of
             // tcp.user_timeout (which the kernel applies to a peer that does not read, too)
             std::vector<const char *> av = {"xcmrelay"};
@@ -196,11 +208,13 @@ public:
         else { f = (int)cfg.ch(5); b = (int)cfg.ch(5); }
         int nconn = 1 + (int)cfg.ch(3);
         front_tp = f; back_tp = b;
+        // a relay process of its own for every case: what the relay carries over from one connection
+        // to the next is then part of the history in the plan (connections are re-opened inside a
+        // case), and every failure reproduces from the plan alone
         Relay &r = g_relays[f][b];
-        if (!r.ok || !r.alive()) {
-            r.start(f, b);
-            VF_CHECK(r.ok, "setup: relay %s -> %s: %s", PROTO[f], PROTO[b], r.err.c_str());
-        }
+        r.start(f, b);
+        struct RelayGuard { Relay &r; ~RelayGuard() { r.stop(); } } relay_guard{r};
+        VF_CHECK(r.ok, "setup: relay %s -> %s: %s", PROTO[f], PROTO[b], r.err.c_str());
         cur = &r;
         c.cls(std::string("legs:") + PROTO[f] + "->" + PROTO[b]);
         c.log("relay %s (front) -> %s (back), %d connection(s)", r.front_addr.c_str(), r.back_addr.c_str(), nconn);
@@ -208,33 +222,12 @@ public:
         struct Guard { std::vector<Conn> &v; ~Guard() { for (auto &x : v) { x_close(x.a); x_close(x.b); } } } guard{cs};
         // ---- set up the connections one at a time (so that pairing is known)
         for (int i = 0; i < nconn; i++) {
-            Conn &cn = cs[i];
-            cn.a.tag = 210 + i;
-            cn.b.tag = 220 + i;
-            struct xcm_attr_map *a = xcm_attr_map_create();
-            xcm_attr_map_add_bool(a, "xcm.blocking", false);
-            if (bs) xcm_attr_map_add_str(a, "xcm.service", "bytestream");
-            cn.a.s = call(cn.a, [&] { return xcm_connect_a(r.front_addr.c_str(), a); });
-            int e = errno;
-            xcm_attr_map_destroy(a);
-            VF_CHECK(cn.a.s != nullptr, "C20: connect to the relay's front address failed: %s", errname(e));
-            cn.a.closed = false;
-            cn.a.fd = x_fd(cn.a);
-            for (int k = 0; k < 3000 && !cn.b.s; k++) {
-                x_finish(cn.a);
-                cn.b.s = call(cn.b, [&] { return xcm_accept(r.server.s); });
-                if (!cn.b.s) usleep(1000);
-            }
-            VF_CHECK(cn.b.s != nullptr, "C20: the relay did not open a connection to the server for client connection %d within 3 s (relay %s)", i, r.alive() ? "alive" : "dead");
-            cn.b.closed = false;
-            cn.b.fd = x_fd(cn.b);
-            bool ra = false, rb = false;
-            for (int k = 0; k < 3000 && !(ra && rb); k++) { ra = ra || x_finish(cn.a) == 0; rb = rb || x_finish(cn.b) == 0; if (!(ra && rb)) usleep(500); }
-            VF_CHECK(ra && rb, "C20: relayed connection %d did not become ready", i);
+            Outcome oo = open_conn(r, cs[i], i, bs);
+            if (!oo.ok) return oo;
         }
         // ---- steps
         Outcome o = Outcome::pass();
-        bool both_dirs = false, paused_burst = false, close_in_flight = false;
+        bool both_dirs = false, paused_burst = false, close_in_flight = false, reopened = false;
         size_t stepno = 0;
         for (auto &st : p.steps) {
             if (!o.ok) break;
@@ -253,17 +246,30 @@ public:
                 for (; n < 400 && o.ok; n++) {
                     Dir &dd = from_a ? cn.a2b : cn.b2a;
                     size_t before = bs ? dd.bytes.size() : dd.msgs.size();
-                    o = do_send(c, cn, from_a, mix32(x, n), bs ? 60000 : 20000 + (y % 40000), n < 3);
+                    // every third message is tiny: what the relay holds when its outgoing leg fills up is
+                    // then a small message about as often as a large one
+                    uint32_t blen = bs ? (n % 3 == 2 ? 1 + mix32(y, n) % 90 : 60000) : (n % 3 == 2 ? 1 + mix32(y, n) % 90 : 20000 + (y % 40000));
+                    o = do_send(c, cn, from_a, mix32(x, n), blen, n < 3);
                     if ((bs ? dd.bytes.size() : dd.msgs.size()) == before) break;
                 }
                 c.log("c%d %s: burst of %d sends until refused", (int)(&cn - &cs[0]), from_a ? "A" : "B", n);
                 if (n > 3) { paused_burst = true; c.cls("burst-until-backpressure"); }
             } else if (k < 85) {
                 o = do_recv(c, cn, from_a, 1 + (int)(x % 5));
-            } else if (k < 92) {
+            } else if (k < 92 && !(cn.a.closed && cn.b.closed)) {
                 if (!cn.a.closed) x_finish(cn.a);
                 if (!cn.b.closed) x_finish(cn.b);
-            } else if (stepno > p.steps.size() / 2) {
+            } else if (cn.a.closed && cn.b.closed) {
+                // both ends of this relayed connection are gone: a new client connects in its place
+                int slot = (int)(&cn - &cs[0]);
+                c.log("c%d: both ends are closed; a new client connection takes the slot", slot);
+                c.cls("connection-reopened-after-close");
+                reopened = true;
+                cn = Conn();
+                o = open_conn(r, cn, slot, bs);
+            } else if (stepno <= p.steps.size() / 2 && (x % 2 == 1 || k < 96)) {
+                if (x % 2 == 1) o = target_down(c, r, bs, cs);
+            } else {
                 Ep &e = from_a ? cn.a : cn.b;
                 if (!e.closed) {
                     Dir &out = from_a ? cn.a2b : cn.b2a;
@@ -338,8 +344,129 @@ public:
             return failf("C20: the relay process exited (status 0x%x) while serving connections%s%s", r.exit_status, o.ok ? "" : "; first symptom: ", o.ok ? "" : o.msg.c_str());
         }
         if (!r.alive()) r.ok = false;
-        c.nt(both_dirs && (paused_burst || close_in_flight));
+        c.nt(both_dirs && (paused_burst || close_in_flight || reopened));
         return o;
+    }
+
+    // Connect a client through the relay and find the connection the relay opens to the server on
+    // its behalf.  Which accepted connection belongs to which client is established by the first
+    // thing the client sends (a nonce, part of the ledger like any other traffic would be): a
+    // connection the relay opened for an earlier, abandoned client (the start-up probe, a client
+    // turned away while the server was down) may still arrive late and is recognised by its EOF.
+    uint32_t nonce_ctr = 0;
+    Outcome open_conn(Relay &r, Conn &cn, int i, bool bs)
+    {
+        cn.a.tag = 210 + i;
+        cn.b.tag = 220 + i;
+        struct xcm_attr_map *a = xcm_attr_map_create();
+        xcm_attr_map_add_bool(a, "xcm.blocking", false);
+        if (bs) xcm_attr_map_add_str(a, "xcm.service", "bytestream");
+        cn.a.s = call(cn.a, [&] { return xcm_connect_a(r.front_addr.c_str(), a); });
+        int e = errno;
+        xcm_attr_map_destroy(a);
+        VF_CHECK(cn.a.s != nullptr, "C20: connect to the relay's front address failed: %s (relay process %s)", errname(e), r.alive() ? "alive" : "EXITED");
+        cn.a.closed = false;
+        cn.a.fd = x_fd(cn.a);
+        uint8_t nonce[8], got[8];
+        uint32_t tag = mix32(++nonce_ctr, (uint32_t)getpid());
+        prf_fill(tag, nonce, sizeof(nonce));
+        size_t sent = 0, ngot = 0;
+        double t0 = now_s();
+        bool paired = false;
+        while (!paired && now_s() - t0 < 6.0) {
+            int rc = x_finish(cn.a);
+            VF_CHECK(rc == 0 || errno == EAGAIN, "C20: the client's connection through the relay failed with %s before anything was sent (relay process %s)", errname(errno), r.alive() ? "alive" : "EXITED");
+            if (sent < sizeof(nonce)) {
+                rc = x_send(cn.a, nonce + sent, sizeof(nonce) - sent);
+                if (rc == 0 && !bs) sent = sizeof(nonce);
+                else if (rc > 0) sent += rc;
+                else VF_CHECK(errno == EAGAIN, "C20: the first xcm_send on a connection through the relay failed with %s (relay process %s)", errname(errno), r.alive() ? "alive" : "EXITED");
+            }
+            if (!cn.b.s) {
+                cn.b.s = call(cn.b, [&] { return xcm_accept(r.server.s); });
+                if (cn.b.s) { cn.b.closed = false; ngot = 0; }
+            }
+            if (cn.b.s) {
+                x_finish(cn.b);
+                rc = x_receive(cn.b, got + ngot, sizeof(got) - ngot);
+                if (rc > 0) {
+                    ngot += rc;
+                    if (!bs || ngot == sizeof(got)) {
+                        VF_CHECK(ngot == sizeof(nonce) && memcmp(got, nonce, sizeof(nonce)) == 0, "C20: the first message on the connection the relay opened for client connection %d is not what that client sent (%zu bytes)", i, ngot);
+                        paired = true;
+                    }
+                } else if (rc == 0 || errno != EAGAIN) {
+                    // opened on behalf of a client that is gone already
+                    x_close(cn.b);
+                    cn.b = Ep();
+                    cn.b.tag = 220 + i;
+                }
+            }
+            if (!paired) usleep(300);
+        }
+        VF_CHECK(paired, "C20: the relay did not open a working connection to the server for client connection %d within 6 s (relay process %s; %s)", i, r.alive() ? "alive" : "EXITED",
+                 cn.b.s ? "a connection was accepted but the client's first message did not arrive" : "nothing to accept");
+        cn.b.fd = x_fd(cn.b);
+        return Outcome::pass();
+    }
+
+    // The server behind the relay is not listening for a moment (a restart) and a new client connects
+    // meanwhile.  That client cannot be served; the relay must stay up for the connections it has.
+    Outcome target_down(Case &c, Relay &r, bool bs, std::vector<Conn> &cs)
+    {
+        int live = 0;
+        for (auto &cn : cs) if (!cn.a.closed && !cn.b.closed) live++;
+        c.cls("target-not-listening-for-a-new-client");
+        x_close(r.server);
+        Ep orphan;
+        orphan.tag = 230;
+        struct xcm_attr_map *a = xcm_attr_map_create();
+        xcm_attr_map_add_bool(a, "xcm.blocking", false);
+        if (bs) xcm_attr_map_add_str(a, "xcm.service", "bytestream");
+        orphan.s = call(orphan, [&] { return xcm_connect_a(r.front_addr.c_str(), a); });
+        xcm_attr_map_destroy(a);
+        bool ended = orphan.s == nullptr;
+        if (orphan.s) {
+            orphan.closed = false;
+            // until the relay has given this client up (it then cannot pair it with the server made below)
+            double t0 = now_s();
+            while (!ended && now_s() - t0 < 2.0) {
+                uint8_t t[64];
+                int rc = x_finish(orphan);
+                if (rc < 0 && errno != EAGAIN) { ended = true; break; }
+                rc = x_receive(orphan, t, sizeof(t));
+                if (rc == 0 || (rc < 0 && errno != EAGAIN)) { ended = true; break; }
+                if (!r.alive()) break;
+                usleep(1000);
+            }
+            x_close(orphan);
+        }
+        c.log("server not listening while a new client connects through the relay (%d live relayed connection(s)): that client %s", live, ended ? "was turned away" : "was left hanging for 2 s");
+        c.cls(ended ? "new-client-turned-away" : "new-client-left-hanging");
+        // the server is back, on the same address
+        r.server = Ep();
+        r.server.tag = 200;
+        for (int i = 0; i < 400 && !r.server.s; i++) {
+            struct xcm_attr_map *sa = xcm_attr_map_create();
+            xcm_attr_map_add_bool(sa, "xcm.blocking", false);
+            if (proto_bs(r.back)) xcm_attr_map_add_str(sa, "xcm.service", "bytestream");
+            r.server.s = call(r.server, [&] { return xcm_server_a(r.back_addr.c_str(), sa); });
+            xcm_attr_map_destroy(sa);
+            if (!r.server.s) usleep(5000);
+        }
+        if (!r.server.s) return failf("harness: the server could not be re-created on %s: %s", r.back_addr.c_str(), errname(errno));
+        r.server.closed = false;
+        r.server.fd = x_fd(r.server);
+        VF_CHECK(r.alive(), "C20: the relay process exited (status 0x%x) when it could not reach the server for one new client, with %d relayed connection(s) live", r.exit_status, live);
+        // a late connection attempt on behalf of the orphan would confuse the pairing: discard it
+        for (int i = 0; i < 30; i++) {
+            Ep acc;
+            acc.tag = 202;
+            acc.s = call(acc, [&] { return xcm_accept(r.server.s); });
+            if (acc.s) { acc.closed = false; x_close(acc); }
+            usleep(1000);
+        }
+        return Outcome::pass();
     }
 
     uint32_t pick_len(uint32_t x, uint32_t y, bool bs)
